@@ -96,9 +96,11 @@ def main():
         return checks.replay(ctx, spec, a.replay)
     try:
         spec['run'](ctx)
-    except Exception:
+    except Exception as ex:
+        # the implementation answered something the judge cannot even read (e.g. `null` where a number text must be): the property is no longer shown to hold —
+        # reported like a broken tie (with whatever failing inputs were found before the crash), never a silent non-zero exit
         traceback.print_exc()
-        return 2
+        ties_broken.append('check-crashed: %s: %s' % (type(ex).__name__, str(ex)[:200]))
     ties_broken += [t for t in getattr(ctx, 'ties_broken', []) if t not in ties_broken]      # shape assertions evaluated inside a check
     # extended search when a tie broke but no failing input has been found yet
     if ties_broken and not ctx.violations and 'extended' in spec:
